@@ -14,6 +14,7 @@ direct oracle:  (2): an output mismatch (design, inputs, cycle, port) between th
 from . import c03_gen as G
 from . import c03_util as U
 from . import c03_corpus as K
+from . import c03_sconn as SC
 
 PID = 'C03'
 DRIVERS = ['sv']
@@ -28,7 +29,7 @@ TRUSTED = [
   'NO Verilog simulator exists in this sandbox (Verilator absent), so this semantics cannot be cross-validated here and is part of the trusted base',
   'harness/checks/c03_svparse.py: parser of the emitted subset written from IEEE 1800-2017 Annex A / Table 11-2 ("syntactically valid" means: accepted by it)',
   'Model/VTr.lean mirrors VBehavioralTranslatorL1-L3 clause by clause; tied to the real translator by comparing, per update block, the parsed real text with tr(real typed RTLIR) on sampled stores',
-  'the structural translator (declarations, instances, connection assigns) is covered by executing the parsed text, not by a theorem',
+  'the structural translator: which connection assigns are emitted in which module and how they are oriented is modelled and proved (Model/SConn.lean, Props/C03s.lean: gen_connections + _gen_metadata); declarations, instances and the rendering of a pair into text are covered by executing the parsed text, not by a theorem',
   'harness/checks/c03_rtlir.py reads widths/constants from the real type-checked RTLIR and mangles sub-component / interface signal names as VBehavioralTranslatorL4/L5 do',
 ]
 ASSUMPTIONS = [
@@ -45,6 +46,16 @@ RULE = ('one PRNG -> random component hierarchies: 0-2 levels of sub-components 
         'shifts, %, if-expressions, struct re-read as bits; widths 1..64 with a 65..512 tail; 5-8 cycles of boundary-biased inputs each; '
         'regression streams for the repaired defect shapes (F13-F16, F18-F21) and labelled streams for the known findings (canonical witness '
         'first); non-trivial = translated, parsed and simulated on both sides; distinct = distinct (source text, inputs)')
+
+# ---- begin: placement and orientation of structural connections (Model/SConn.lean, Props/C03s.lean, harness/checks/c03_sconn.py)
+DRIVERS = DRIVERS + SC.DRIVERS
+MODULE = [MODULE, SC.MODULE]
+THEOREMS = THEOREMS + SC.THEOREMS
+THEOREM_MODULE = dict(SC.THEOREM_MODULE)
+TRUSTED = TRUSTED + SC.TRUSTED
+ASSUMPTIONS = ASSUMPTIONS + SC.ASSUMPTIONS
+RULE = RULE + '; ' + SC.RULE
+# ---- end
 
 BE = 'verilog'
 
@@ -84,9 +95,11 @@ def run(ck):
     if ck.tier == 'quick' and ck.elapsed() > 75: break
   ck.extra_cov['pipeline'] = stats
   ck.extra_cov['designs'] = {'corpus': len(corpus), 'finding_streams': len(fd), 'clean': done}
+  SC.run(ck)   # last, so that the PRNG streams above do not move: structural hierarchies vs Model/SConn (gen_connections / _gen_metadata)
 
 def replay(ck, data):
   case = data['case']
+  if case and case.get('sconn'): return SC.replay(ck, data)
   if case is None:
     print('no concrete case recorded (proof / correspondence break without failing input)'); return 1
   if 'src' not in case:
